@@ -39,9 +39,9 @@ var frameAllowed = map[string][]string{
 	"Decimal.appendSpecial":    {"buf"},
 	"Decimal.format":           {"buf"},
 	"Decimal.writeSpecial":     {},
-	"digits.fmtE":              {"buf", "d"},
-	"digits.fmtF":              {"buf", "d"},
-	"digits.pad":               {"buf", "d"},
+	"digits.fmtE":              {"buf"},
+	"digits.fmtF":              {"buf"},
+	"digits.pad":               {"buf"},
 	"digits.round":             {"d"},
 	"Decimal.digits":           {"digs"},
 	"parseFormat":              {"args"},
@@ -227,6 +227,24 @@ func frameCheck(w *World) (findings []FrameFinding, nfuncs int, err error) {
 							checkWrite(ins, x.Call.Args[0], "math/big "+callee.Name())
 							if callee.Name() == "QuoRem" || callee.Name() == "DivMod" {
 								checkWrite(ins, x.Call.Args[len(x.Call.Args)-1], "math/big "+callee.Name()+" (remainder argument)")
+							}
+						}
+					}
+					// handing a slice or pointer to a function of this package that writes through the
+					// corresponding parameter is a write through it
+					if callee := x.Call.StaticCallee(); callee != nil && (callee.Pkg == pkg || (callee.Origin() != nil && callee.Origin().Pkg == pkg)) {
+						ck := funcKey(callee)
+						if callee.Parent() != nil {
+							ck = funcKey(callee.Parent())
+						}
+						for k, prm := range callee.Params {
+							if k >= len(x.Call.Args) {
+								break
+							}
+							for _, a := range frameAllowed[ck] {
+								if a == prm.Name() {
+									checkWrite(ins, x.Call.Args[k], "call of "+ck+" (which writes through its parameter "+a+")")
+								}
 							}
 						}
 					}
